@@ -530,12 +530,47 @@ def invert_harness():
     return Harness("invert", run, spec=Spec())
 
 
+def hashed_value_harness():
+    """Domain elements are told apart by identity: HashedValue.id_ is the value's own `_id_` if it has one, else id(value) -- for
+    EVERY kind of value (two ints with colliding hashes, value-equal 1 / True / 1.0, equal strings held twice are different
+    elements of a domain).  An explicit id_ is kept, a nested HashedValue is unwrapped."""
+    def run(vm):
+        ctx = vm.ctx
+        HV = vm.loader.cls(HD, "HashedValue")
+        v = Opaque("domain-element")
+        kind = ctx.choice(3, "kind-of-value")       # 0: an arbitrary object, 1: an instance of whatever builtin type is asked for, 2: has _id_
+        ctx.inputs["kind"] = ["object", "builtin scalar", "has _id_"][kind]
+        vm.spec.opaque_hooks["isinstance"] = lambda it, o, c: (kind == 1 and c is not HV and not (isinstance(c, tuple) and HV in c))
+        vm.spec.opaque_hooks["hasattr"] = lambda it, o, name: (kind == 2 and name == "_id_")
+        vm.spec.opaque_hooks["getattr"] = lambda it, o, name: 4711 if (kind == 2 and name == "_id_") else it.raise_("AttributeError", name)
+        vm.spec.opaque_hooks["id"] = lambda it, o: 1000000 + o.oid
+        hv = vm.call(HV, [v], {})
+        want = 4711 if kind == 2 else 1000000 + v.oid
+        got = hv.fields.get("id_")
+        ctx.check("HashedValue.__post_init__::the-identifier-is-the-own-_id_-or-the-identity-of-the-value-never-derived-from-its-content",
+                  z3.BoolVal(isinstance(got, int) and not isinstance(got, bool) and got == want and hv.fields.get("value") is v), detail=f"{ctx.inputs['kind']}: id_={got!r}, expected {want}")
+        hv2 = vm.call(HV, [v], {"id_": 5})
+        ctx.check("HashedValue.__post_init__::an-explicit-identifier-is-kept", z3.BoolVal(hv2.fields.get("id_") == 5 and hv2.fields.get("value") is v))
+        hv3 = vm.call(HV, [hv], {})
+        ctx.check("HashedValue.__post_init__::a-wrapped-value-is-unwrapped-with-its-identifier", z3.BoolVal(hv3.fields.get("id_") == want and hv3.fields.get("value") is v), detail=repr(hv3.fields))
+        other = vm.call(HV, [Opaque("another-element")], {})
+        ctx.check("HashedValue.__eq__::values-are-equal-iff-their-identifiers-are", z3.BoolVal(vm.truth(vm.equals(hv, hv3)) is True and (kind == 2 or vm.truth(vm.equals(hv, other)) is False)))
+    return Harness("hashed-value-identity", run, spec=Spec())
+
+
+def _quantifier_pass_through():
+    """a nested an(...) / the(...) is a node of the query like any other: it reports every result of its description once and
+    passes all its bindings on (C09's counting-loop contract on the same real ResultQuantifier._evaluate__)"""
+    from . import C09
+    return [h for h in C09.harnesses() if h.name in ("an-evaluate[none+var]", "an-evaluate[none]")]
+
+
 _stage_a = harnesses
 
 
 def harnesses():
     return _stage_a()[:-1] + [comparator_harness("generic"), comparator_harness("eq"), variable_harness("operand"), attribute_harness("operand")] + \
         [variable_harness("condition", k) for k in condition_parent_kinds()] + [attribute_harness("condition", k) for k in condition_parent_kinds()] + \
-        [frame_domain_mapping(),
+        [hashed_value_harness(), frame_domain_mapping(),
                               descriptor_harness(1), descriptor_harness(2), descriptor_no_condition(), process_result_harness(),
-                              optimize_or_harness(), invert_harness(), h_canary()]
+                              optimize_or_harness(), invert_harness()] + _quantifier_pass_through() + [h_canary()]
